@@ -279,6 +279,7 @@ int main(int argc, char** argv) {
 #endif
 #if !defined(C04_PART) || C04_PART == 7
         RING("mru7", Modular<ruint<7> >) RING("mru67", Modular<ruint<6>, ruint<7> >)
+        RING("mgru6", Montgomery<ruint<6> >) RING("mgru7", Montgomery<ruint<7> >)
 #endif
         else out = "BAD-RING";
 #undef RING
